@@ -249,6 +249,9 @@ func directDigest(r *kit.Rng, s *kit.Summary, mc *mergeChecker, tag string) {
 	td.Quantile(0.5)
 	post := rd.read()
 	mc.procOp(s, pre, post, comp, tag)
+	if len(post.pm) > post.maxP {
+		s.Count("merge:stand-alone digest left with more than maxProcessed centroids")
+	}
 	s.Case(fmt.Sprintf("%s:direct:%v:%d:%d", tag, comp, n, kind), n >= 2)
 	s.Count("merge:stand-alone digest, compression " + strconv.FormatFloat(comp, 'g', -1, 64))
 }
